@@ -48,6 +48,21 @@ CLAIMED = {
    text="The built-in table (forward, reverse, indexed) and the file provider are compared entry by entry with the IERS list parsed at check time from data/leap-seconds.list and naif0012.txt (three-way agreement with a digest in the harness). UTC->TAI, TAI->UTC and the round trip are checked to the nanosecond on every lattice instant (28 IERS + 14 SOFA entries, dates before 1960/1972 and after 2017, +-10 500 years); the accessor and 34 file providers (every prefix of the list, 5 format variants) are checked absolutely on TAI-labelled epochs and relatively (file == built-in) on every scale.",
    note="TAI instants inside an inserted interval (the leap second itself, the 10 s of 1972-01-01) have no UTC count: the value is a counted don't-care bounded by the inserted amount (the suite pins one convention). The accessor's answer for a TAI epoch between an entry's timestamp and its TAI instant is not judged.",
    ref="DESIGN.md §4 C06"),
+ "C16": dict(
+   technique="bounded explicit-state model checking: complete enumeration of the weekday algebra (7 x 256 x 9 operations), exhaustive enumeration of the calendar lattice x day-boundary times of day for the accessors and next/previous, plus stateright BFS over chains of next/previous, judged by (days since 1900-01-01) mod 7",
+   text="The weekday algebra is enumerated completely. Every day of the calendar lattice at ten times of day (first/last nanoseconds, 238 ns and 1 us before midnight, noon, rolling) is given as a TAI and as a UTC epoch to weekday / weekday_utc / weekday_in_time_scale; next and previous are run for all 7 targets on every 7th day and all leap-second days, the four _at_midnight/_at_noon variants likewise; a stateright BFS chains next/previous from 24 starts (depth 3/4) checking each step lands 1..7 whole days away on the requested weekday at the same time of day.",
+   note="next/previous on UTC epochs whose TAI and UTC civil dates differ are don't-cares (the statement does not say in which scale the weekday is read); _at_midnight/_at_noon before the reference epoch are don't-cares (not described by the statement).",
+   ref="DESIGN.md §4 C16"),
+ "C17": dict(
+   technique="bounded explicit-state model checking: exhaustive enumeration of the epoch lattice x 9 scales x ~35 accessors and of the float lattice x 9 constructors through the real code, judged by exact integer/rational arithmetic with derived constants",
+   text="Every lattice epoch in every scale is read through all JD/MJD/UNIX/TT/ET/TDB views: duration-valued ones must equal count + constant exactly (constants derived from civil dates; UTC via the leap table model), float ones must be within 8 ulp of the correctly rounded exact rational (of the value or of one second's worth; measured worst case is reported). Constructors from_mjd_*/from_jde_*/from_unix_* are run on every float of the lattice inside +-10 000 years and read back through the same view.",
+   note="Constructor read-back tolerance is 8 ulp at the larger of |value|, one second's worth and |value - 1900 anchor| (the constructors subtract the anchor in f64; demanding more would exceed the statement's 'float precision'). JDE in ET/TDB is checked as an exact affine function of the real ET/TDB duration (the transcendental part belongs to C07).",
+   ref="DESIGN.md §4 C17"),
+ "C20": dict(
+   technique="bounded explicit-state model checking: exhaustive enumeration of (week, ns-of-week, scale) boundary products, of the non-negative epoch lattice, of u64 counter lattices and of (year, day-of-year, fraction, scale) products through the real constructors/accessors, judged by integer division and civil arithmetic",
+   text="from_time_of_week over 15 weeks x 11 nanosecond values x 9 scales (incl. non-canonical and saturating inputs) and back; to_time_of_week on every non-negative lattice epoch in 9 scales must return the unique pair with ns < 604 800 s and rebuild the epoch; the four u64 counters are constructed and read back on 16 boundary values and read from every lattice epoch in 7 scales (Err required outside [0, one century)); from_day_of_year -> (year, day_of_year) for every day of 13 years (quick) / ~60 days of every year 0001-9999 (thorough) x 4 fractions x 9 scales.",
+   note="Negative counts are outside to_time_of_week's quantifier (counted don't-cares).",
+   ref="DESIGN.md §4 C20"),
  "C18": dict(
    technique="bounded explicit-state model checking: exhaustive enumeration of a float lattice (every binade with neighbours, thresholds +-1 ulp, decimal fractions, subnormals, non-finite) x 9 units x 4 call forms and of duration lattice x float sub-lattice through the real float interop, judged by exact integer arithmetic on the decoded floats; watchdog for the no-hang clause",
    text="unit x float in four call forms over ~3 300 (quick) / ~17 000 (thorough) floats x 9 units is compared exactly with clamp(trunc(fl(x*f))) computed on the decoded mantissa/exponent; to_seconds/to_unit are compared with the correctly rounded exact rational within 8 ulp (measured worst case reported) and checked monotone along the sorted lattice; Duration*f64 (both orders) must lie within 1 ns + 4 ulp of the exact dyadic product; compose_f64 is checked against the saturating sum of its terms; a watchdog turns a case that does not return within 10/30 s into a violation.",
